@@ -516,6 +516,10 @@ func connectEncodeProbe(c *Ctx, d time.Duration, grpc bool) {
 func streamTimeout(c *Ctx) {
 	if replayOp != "" {
 		f := strings.Fields(replayOp)
+		if f[0] == "tbudget" { // emitted by the server-budget probes: run them again
+			serverBudgetProbes(c)
+			return
+		}
 		if f[0] == "ctmo.enc" {
 			// re-probe with a deadline in the same range
 			hi, _ := strconv.ParseInt(f[2], 10, 64)
